@@ -286,7 +286,7 @@ func executeUniverse(env *Env, sc *Scenario, mroot string) ([]Violation, error) 
 			return nil, err
 		}
 		run := v.Ops[0].Run
-		resp, err := w.Do(&proto.RunReq{Root: mroot, Args: run.Args, Sched: run.Sched, Universe: true, UniAll: sc.ExternalRoot != "", NoEvents: true}, 4*env.Timeout)
+		resp, err := w.Do(&proto.RunReq{Root: mroot, Args: run.Args, Sched: run.Sched, Universe: true, UniAll: sc.ExternalRoot != "" || sc.UniAll, NoEvents: true}, 4*env.Timeout)
 		x.Close()
 		if err != nil {
 			return nil, infra("universe: %v", err)
